@@ -26,4 +26,4 @@ def run(ctx: Ctx) -> None:
     ctx.run(cleanups.check_spacing_arms)
     ctx.run(rewrite.check_nonint, ("cleanups",))
     ctx.run(rewrite.check_list_spacing_confinement)
-    ctx.run(optflow.check_consumers)
+    ctx.run(optflow.check_consumers, ("cleanups",))
